@@ -48,6 +48,10 @@ theorem upd_wids {k : Nat} {w' : Worker} (l : List Worker) (h : w'.wid = k) : (u
 
 /-! ### the per-worker invariant -/
 
+theorem gone_of_exited {p : WPc} (h : p = .exited) : gone p = true := by subst h; rfl
+theorem not_exited_of_not_gone {p : WPc} (h : gone p = false) : p ≠ .exited := by
+  intro e; subst e; cases h
+
 structure WInv (cfg : Cfg) (w : Worker) : Prop where
   shape : match w.pc with
     | .notStarted | .bfClear => w.log = []
@@ -63,6 +67,8 @@ structure WInv (cfg : Cfg) (w : Worker) : Prop where
     (match w.pc with | .get | .lockAcq | .putNowait | .lockRel | .putBlock => w.done < q | _ => True)
   bfLog : w.bf = true → WEv.begin ∈ w.log
   bfPre : (w.pc = .notStarted ∨ w.pc = .bfClear) → w.bf = false
+  /-- `end()` is a step of its own only with a finite join timeout -/
+  ending : w.pc = .ending → cfg.joinTimeout = true
 
 theorem WInv.lifeOk {cfg : Cfg} {w : Worker} (h : WInv cfg w) : LifeOk cfg w := by
   refine ⟨?_, fun q hq => (h.bound q hq).1⟩
@@ -84,34 +90,36 @@ theorem itemCount_end (l : List WEv) : ((l ++ [WEv.end_]).filter isItem).length 
 
 theorem WInv_begin_crash {cfg : Cfg} {w : Worker} (h : WInv cfg w) (hpc : w.pc = .bfClear) :
     WInv cfg (workerExit { w with bf := false, log := w.log ++ [.begin] } true) := by
-  obtain ⟨h1, h2, h3, h4, h5, h6⟩ := h
+  obtain ⟨h1, h2, h3, h4, h5, h6, h7⟩ := h
   simp only [hpc] at h1 h2
-  refine ⟨?_, ?_, ?_, ?_, ?_, ?_⟩ <;> dsimp only [workerExit]
+  refine ⟨?_, ?_, ?_, ?_, ?_, ?_, ?_⟩ <;> dsimp only [workerExit]
   · exact ⟨[], by simp, by simp [h1]⟩
   · exact h3
   · intro q hq; refine ⟨?_, trivial⟩; simp [itemCount, h1, isItem]
   · simp
   · simp
+  · intro hh; first | cases hh | (rw [hh] at hm'; cases hm')
 
 theorem WInv_begin_ok {cfg : Cfg} {w : Worker} (h : WInv cfg w) (hpc : w.pc = .bfClear) :
     WInv cfg { w with bf := false, log := w.log ++ [.begin], pc := .bfSet } := by
-  obtain ⟨h1, h2, h3, h4, h5, h6⟩ := h
+  obtain ⟨h1, h2, h3, h4, h5, h6, h7⟩ := h
   simp only [hpc] at h1 h2
-  refine ⟨?_, ?_, ?_, ?_, ?_, ?_⟩ <;> dsimp only
+  refine ⟨?_, ?_, ?_, ?_, ?_, ?_, ?_⟩ <;> dsimp only
   · exact ⟨[], by simp, by simp [h1]⟩
   · exact ⟨h2.1, by simp [itemCount, h1, isItem]⟩
   · exact h3
   · intro q hq; refine ⟨?_, trivial⟩; simp [itemCount, h1, isItem]
   · simp
   · simp
+  · intro hh; first | cases hh | (rw [hh] at hm'; cases hm')
 
-theorem WInv_get_none {cfg : Cfg} {w : Worker} (h : WInv cfg w) (hpc : w.pc = .get ∨ w.pc = .retire) :
+theorem WInv_get_none {cfg : Cfg} {w : Worker} (h : WInv cfg w) (hpc : w.pc = .get ∨ w.pc = .retire ∨ w.pc = .ending) :
     WInv cfg (workerExit w false) := by
-  obtain ⟨h1, h2, h3, h4, h5, h6⟩ := h
+  obtain ⟨h1, h2, h3, h4, h5, h6, h7⟩ := h
   have e1 : ∃ items, (∀ e ∈ items, isItem e = true) ∧ w.log = .begin :: items := by
-    rcases hpc with hpc | hpc <;> simp only [hpc] at h1 <;> exact h1
+    rcases hpc with hpc | hpc | hpc <;> simp only [hpc] at h1 <;> exact h1
   obtain ⟨items, hi, hl⟩ := e1
-  refine ⟨?_, ?_, ?_, ?_, ?_, ?_⟩ <;> dsimp only [workerExit]
+  refine ⟨?_, ?_, ?_, ?_, ?_, ?_, ?_⟩ <;> dsimp only [workerExit]
   · exact ⟨items, hi, by rw [hl]⟩
   · exact h3
   · intro q hq; refine ⟨?_, trivial⟩
@@ -119,13 +127,27 @@ theorem WInv_get_none {cfg : Cfg} {w : Worker} (h : WInv cfg w) (hpc : w.pc = .g
     unfold itemCount at *; dsimp only; rw [itemCount_end]; exact this
   · intro _; simp [hl]
   · simp
+  · intro hh; first | cases hh | (rw [hh] at hm'; cases hm')
+
+/-- (`Cfg.joinTimeout`) the wid has been posted, `end()` is still to run -/
+theorem WInv_retire_ending {cfg : Cfg} {w : Worker} (h : WInv cfg w) (hpc : w.pc = .retire) (hjt : cfg.joinTimeout = true) :
+    WInv cfg { w with pc := .ending } := by
+  obtain ⟨h1, h2, h3, h4, h5, h6, h7⟩ := h
+  simp only [hpc] at h1
+  refine ⟨?_, ?_, ?_, ?_, ?_, ?_, ?_⟩ <;> dsimp only
+  · exact h1
+  · exact h3
+  · intro q hq; exact ⟨(h4 q hq).1, trivial⟩
+  · exact h5
+  · intro hh; rcases hh with hh | hh <;> cases hh
+  · intro _; exact hjt
 
 theorem WInv_item_crash {cfg : Cfg} {w : Worker} (i : Nat) (h : WInv cfg w) (hpc : w.pc = .get) :
     WInv cfg (workerExit { w with log := w.log ++ [.item i] } true) := by
-  obtain ⟨h1, h2, h3, h4, h5, h6⟩ := h
+  obtain ⟨h1, h2, h3, h4, h5, h6, h7⟩ := h
   simp only [hpc] at h1 h2
   obtain ⟨items, hi, hl⟩ := h1
-  refine ⟨?_, ?_, ?_, ?_, ?_, ?_⟩ <;> dsimp only [workerExit]
+  refine ⟨?_, ?_, ?_, ?_, ?_, ?_, ?_⟩ <;> dsimp only [workerExit]
   · refine ⟨items ++ [.item i], ?_, by rw [hl]; simp⟩
     intro e he; rcases List.mem_append.1 he with he | he
     · exact hi e he
@@ -136,13 +158,14 @@ theorem WInv_item_crash {cfg : Cfg} {w : Worker} (i : Nat) (h : WInv cfg w) (hpc
     unfold itemCount at *; dsimp only; rw [itemCount_end, itemCount_item]; omega
   · intro _; simp [hl]
   · simp
+  · intro hh; first | cases hh | (rw [hh] at hm'; cases hm')
 
 theorem WInv_item_ok {cfg : Cfg} {w : Worker} (i : Nat) (h : WInv cfg w) (hpc : w.pc = .get) :
     WInv cfg { w with log := w.log ++ [.item i], held := some i, pc := .lockAcq } := by
-  obtain ⟨h1, h2, h3, h4, h5, h6⟩ := h
+  obtain ⟨h1, h2, h3, h4, h5, h6, h7⟩ := h
   simp only [hpc] at h1 h2
   obtain ⟨items, hi, hl⟩ := h1
-  refine ⟨?_, ?_, ?_, ?_, ?_, ?_⟩ <;> dsimp only
+  refine ⟨?_, ?_, ?_, ?_, ?_, ?_, ?_⟩ <;> dsimp only
   · refine ⟨items ++ [.item i], ?_, by rw [hl]; simp⟩
     intro e he; rcases List.mem_append.1 he with he | he
     · exact hi e he
@@ -154,6 +177,7 @@ theorem WInv_item_ok {cfg : Cfg} {w : Worker} (i : Nat) (h : WInv cfg w) (hpc : 
     unfold itemCount at *; dsimp only; rw [itemCount_item]; omega
   · intro hb; have := h5 hb; simp [this]
   · simp
+  · intro hh; first | cases hh | (rw [hh] at hm'; cases hm')
 
 def midPc : WPc → Bool
   | .lockAcq | .putNowait | .lockRel | .putBlock => true
@@ -162,7 +186,7 @@ def midPc : WPc → Bool
 theorem WInv_mid {cfg : Cfg} {w w' : Worker} (h : WInv cfg w) (hm : midPc w.pc = true) (hm' : midPc w'.pc = true)
     (hl : w'.log = w.log) (hd : w'.done = w.done) (hq : w'.quota = w.quota) (hb : w'.bf = w.bf) : WInv cfg w' := by
   have hic : itemCount w' = itemCount w := by unfold itemCount; rw [hl]
-  obtain ⟨h1, h2, h3, h4, h5, h6⟩ := h
+  obtain ⟨h1, h2, h3, h4, h5, h6, h7⟩ := h
   have e1 : ∃ items, (∀ e ∈ items, isItem e = true) ∧ w.log = .begin :: items := by
     cases hpc : w.pc <;> simp only [hpc, midPc] at hm h1 <;> first | exact h1 | cases hm
   have e2 : itemCount w = w.done + 1 := by
@@ -170,7 +194,7 @@ theorem WInv_mid {cfg : Cfg} {w w' : Worker} (h : WInv cfg w) (hm : midPc w.pc =
   have e4 : ∀ q, cfg.quota = some q → itemCount w ≤ q ∧ w.done < q := by
     intro q hq'; have := h4 q hq'
     cases hpc : w.pc <;> simp only [hpc, midPc] at hm this <;> first | exact this | cases hm
-  refine ⟨?_, ?_, ?_, ?_, ?_, ?_⟩
+  refine ⟨?_, ?_, ?_, ?_, ?_, ?_, ?_⟩
   · cases hpc : w'.pc <;> simp only [hpc, midPc] at hm' ⊢ <;> first | (rw [hl]; exact e1) | cases hm'
   · cases hpc : w'.pc <;> simp only [hpc, midPc] at hm' ⊢ <;> first | (rw [hic, hd]; exact e2) | cases hm'
   · rw [hq, hd]; exact h3
@@ -178,6 +202,7 @@ theorem WInv_mid {cfg : Cfg} {w w' : Worker} (h : WInv cfg w) (hm : midPc w.pc =
     cases hpc : w'.pc <;> simp only [hpc, midPc] at hm' ⊢ <;> first | (rw [hic, hd]; exact e4 q hq') | cases hm'
   · rw [hb, hl]; exact h5
   · intro hh; rcases hh with hh | hh <;> rw [hh] at hm' <;> cases hm'
+  · intro hh; first | cases hh | (rw [hh] at hm'; cases hm')
 
 theorem WInv_loopTop {cfg : Cfg} (f : Bool) (w : Worker)
     (hs : ∃ items, (∀ e ∈ items, isItem e = true) ∧ w.log = .begin :: items)
@@ -188,13 +213,14 @@ theorem WInv_loopTop {cfg : Cfg} (f : Bool) (w : Worker)
   split
   · rename_i h0
     split
-    · refine ⟨?_, ?_, ?_, ?_, ?_, ?_⟩ <;> dsimp only
+    · refine ⟨?_, ?_, ?_, ?_, ?_, ?_, ?_⟩ <;> dsimp only
       · exact ⟨items, hi, hl⟩
       · exact hq
       · intro q hq'; have := hb q hq'; exact ⟨by unfold itemCount at *; dsimp only; omega, trivial⟩
       · intro _; simp [hl]
       · simp
-    · refine ⟨?_, ?_, ?_, ?_, ?_, ?_⟩ <;> dsimp only [workerExit]
+      · intro hh; first | cases hh | (rw [hh] at hm'; cases hm')
+    · refine ⟨?_, ?_, ?_, ?_, ?_, ?_, ?_⟩ <;> dsimp only [workerExit]
       · exact ⟨items, hi, by rw [hl]⟩
       · exact hq
       · intro q hq'; have := hb q hq'
@@ -204,8 +230,9 @@ theorem WInv_loopTop {cfg : Cfg} (f : Bool) (w : Worker)
         simp [isItem]; omega
       · intro _; simp [hl]
       · simp
+      · intro hh; first | cases hh | (rw [hh] at hm'; cases hm')
   · rename_i h0
-    refine ⟨?_, ?_, ?_, ?_, ?_, ?_⟩ <;> dsimp only
+    refine ⟨?_, ?_, ?_, ?_, ?_, ?_, ?_⟩ <;> dsimp only
     · exact ⟨items, hi, hl⟩
     · exact hc
     · exact hq
@@ -216,6 +243,7 @@ theorem WInv_loopTop {cfg : Cfg} (f : Bool) (w : Worker)
       · exfalso; apply h0; rw [hq, hq']; simp; omega
     · intro _; simp [hl]
     · simp
+    · intro hh; first | cases hh | (rw [hh] at hm'; cases hm')
 
 /-! ### summary of a worker step -/
 
@@ -235,23 +263,29 @@ structure WFrame (s s' : St) (w w' : Worker) : Prop where
   rpc : s'.rpc = s.rpc
   rAlive : s'.rAlive = s.rAlive
   widCounter : s'.widCounter = s.widCounter
-  replQ : s'.replQ = s.replQ ∨ (s'.replQ = s.replQ ++ [some w.wid] ∧ w'.pc = .exited)
+  replQ : s'.replQ = s.replQ ∨ (s'.replQ = s.replQ ++ [some w.wid] ∧ gone w'.pc = true ∧ gone w.pc = false)
+  /-- a worker that has left its loop stays so (the only step it has left is `end()`) -/
+  gone : gone w.pc = true → gone w'.pc = true
 
 theorem WFrame_set {s s0 : St} {w w' : Worker} (hwid : w'.wid = w.wid) (h1 : s0.workers = s.workers) (h2 : s0.cfg = s.cfg)
     (h3 : s0.cpc = s.cpc) (h4 : s0.procs = s.procs) (h5 : s0.rpc = s.rpc) (h6 : s0.rAlive = s.rAlive)
-    (h7 : s0.widCounter = s.widCounter) (h8 : s0.replQ = s.replQ ∨ (s0.replQ = s.replQ ++ [some w.wid] ∧ w'.pc = .exited)) :
+    (h7 : s0.widCounter = s.widCounter)
+    (h8 : s0.replQ = s.replQ ∨ (s0.replQ = s.replQ ++ [some w.wid] ∧ gone w'.pc = true ∧ gone w.pc = false))
+    (h9 : gone w.pc = true → gone w'.pc = true) :
     WFrame s (setWorker s0 w') w w' :=
-  ⟨by rw [setWorker_workers, hwid, h1], h2, h3, h4, h5, h6, h7, h8⟩
+  ⟨by rw [setWorker_workers, hwid, h1], h2, h3, h4, h5, h6, h7, h8, h9⟩
 
 theorem summary_mk {s s0 : St} {wid : Nat} {w w' : Worker} (hg : getWorker s wid = some w) (hn1 : w.pc ≠ .notStarted)
     (hn2 : w.pc ≠ .exited) (hwid : w'.wid = w.wid) (hn3 : w'.pc ≠ .notStarted)
     (hinv : WInv s.cfg w → WInv s.cfg w' ∧ (w.bf = true → w'.bf = true))
     (h1 : s0.workers = s.workers) (h2 : s0.cfg = s.cfg)
     (h3 : s0.cpc = s.cpc) (h4 : s0.procs = s.procs) (h5 : s0.rpc = s.rpc) (h6 : s0.rAlive = s.rAlive)
-    (h7 : s0.widCounter = s.widCounter) (h8 : s0.replQ = s.replQ ∨ (s0.replQ = s.replQ ++ [some w.wid] ∧ w'.pc = .exited)) :
+    (h7 : s0.widCounter = s.widCounter)
+    (h8 : s0.replQ = s.replQ ∨ (s0.replQ = s.replQ ++ [some w.wid] ∧ gone w'.pc = true ∧ gone w.pc = false))
+    (h9 : gone w.pc = true → gone w'.pc = true) :
     ∃ v v', getWorker s wid = some v ∧ v.pc ≠ .notStarted ∧ v.pc ≠ .exited ∧ v'.wid = v.wid ∧ v'.pc ≠ .notStarted ∧
       (WInv s.cfg v → WInv s.cfg v' ∧ (v.bf = true → v'.bf = true)) ∧ WFrame s (setWorker s0 w') v v' :=
-  ⟨w, w', hg, hn1, hn2, hwid, hn3, hinv, WFrame_set hwid h1 h2 h3 h4 h5 h6 h7 h8⟩
+  ⟨w, w', hg, hn1, hn2, hwid, hn3, hinv, WFrame_set hwid h1 h2 h3 h4 h5 h6 h7 h8 h9⟩
 
 theorem stepW_summary {s s' : St} {wid : Nat} (h : stepW s wid = some s') :
     ∃ w w', getWorker s wid = some w ∧ w.pc ≠ .notStarted ∧ w.pc ≠ .exited ∧ w'.wid = w.wid ∧ w'.pc ≠ .notStarted ∧
@@ -268,19 +302,19 @@ theorem stepW_summary {s s' : St} {wid : Nat} (h : stepW s wid = some s') :
     · cases h
     · -- bfClear
       split at h <;> simp only [Option.some.injEq] at h <;> subst h
-      · refine summary_mk hg (by simp [hpc]) (by simp [hpc]) rfl (by simp [workerExit]) ?_ rfl rfl rfl rfl rfl rfl rfl (Or.inl rfl)
+      · refine summary_mk hg (by simp [hpc]) (by simp [hpc]) rfl (by simp [workerExit]) ?_ rfl rfl rfl rfl rfl rfl rfl (Or.inl rfl) (by simp [hpc, gone])
         intro hw; refine ⟨WInv_begin_crash hw hpc, ?_⟩
         intro hb; rw [hw.bfPre (Or.inr hpc)] at hb; cases hb
-      · refine summary_mk hg (by simp [hpc]) (by simp [hpc]) rfl (by simp) ?_ rfl rfl rfl rfl rfl rfl rfl (Or.inl rfl)
+      · refine summary_mk hg (by simp [hpc]) (by simp [hpc]) rfl (by simp) ?_ rfl rfl rfl rfl rfl rfl rfl (Or.inl rfl) (by simp [hpc, gone])
         intro hw; refine ⟨WInv_begin_ok hw hpc, ?_⟩
         intro hb; rw [hw.bfPre (Or.inr hpc)] at hb; cases hb
     · -- bfSet
       simp only [Option.some.injEq] at h; subst h
       refine summary_mk hg (by simp [hpc]) (by simp [hpc]) (workerLoopTop_facts _ _).1
-            (workerLoopTop_facts _ _).2.2 ?_ rfl rfl rfl rfl rfl rfl rfl (Or.inl rfl)
+            (workerLoopTop_facts _ _).2.2 ?_ rfl rfl rfl rfl rfl rfl rfl (Or.inl rfl) (by simp [hpc, gone])
       intro hw
       refine ⟨?_, fun _ => by rw [(workerLoopTop_facts _ _).2.1]⟩
-      obtain ⟨h1, h2, h3, h4, h5, h6⟩ := hw
+      obtain ⟨h1, h2, h3, h4, h5, h6, h7⟩ := hw
       simp only [hpc] at h1 h2
       apply WInv_loopTop
       · exact h1
@@ -292,37 +326,37 @@ theorem stepW_summary {s s' : St} {wid : Nat} (h : stepW s wid = some s') :
       split at h
       · cases h
       · simp only [Option.some.injEq] at h; subst h
-        refine summary_mk hg (by simp [hpc]) (by simp [hpc]) rfl (by simp [workerExit]) ?_ rfl rfl rfl rfl rfl rfl rfl (Or.inl rfl)
+        refine summary_mk hg (by simp [hpc]) (by simp [hpc]) rfl (by simp [workerExit]) ?_ rfl rfl rfl rfl rfl rfl rfl (Or.inl rfl) (by simp [hpc, gone])
         intro hw; exact ⟨WInv_get_none hw (Or.inl hpc), fun hb => hb⟩
       · rename_i i r _
         split at h <;> simp only [Option.some.injEq] at h <;> subst h
-        · refine summary_mk hg (by simp [hpc]) (by simp [hpc]) rfl (by simp [workerExit]) ?_ rfl rfl rfl rfl rfl rfl rfl (Or.inl rfl)
+        · refine summary_mk hg (by simp [hpc]) (by simp [hpc]) rfl (by simp [workerExit]) ?_ rfl rfl rfl rfl rfl rfl rfl (Or.inl rfl) (by simp [hpc, gone])
           intro hw; exact ⟨WInv_item_crash i hw hpc, fun hb => hb⟩
-        · refine summary_mk hg (by simp [hpc]) (by simp [hpc]) rfl (by simp) ?_ rfl rfl rfl rfl rfl rfl rfl (Or.inl rfl)
+        · refine summary_mk hg (by simp [hpc]) (by simp [hpc]) rfl (by simp) ?_ rfl rfl rfl rfl rfl rfl rfl (Or.inl rfl) (by simp [hpc, gone])
           intro hw; exact ⟨WInv_item_ok i hw hpc, fun hb => hb⟩
     · -- lockAcq
       split at h
       · simp only [Option.some.injEq] at h; subst h
-        refine summary_mk hg (by simp [hpc]) (by simp [hpc]) rfl (by simp) ?_ rfl rfl rfl rfl rfl rfl rfl (Or.inl rfl)
+        refine summary_mk hg (by simp [hpc]) (by simp [hpc]) rfl (by simp) ?_ rfl rfl rfl rfl rfl rfl rfl (Or.inl rfl) (by simp [hpc, gone])
         intro hw; exact ⟨WInv_mid hw (by rw [hpc]; rfl) rfl rfl rfl rfl rfl, fun hb => hb⟩
       · cases h
     · -- putNowait
       split at h
       · cases h
       · split at h <;> simp only [Option.some.injEq] at h <;> subst h
-        · refine summary_mk hg (by simp [hpc]) (by simp [hpc]) rfl (by simp) ?_ rfl rfl rfl rfl rfl rfl rfl (Or.inl rfl)
+        · refine summary_mk hg (by simp [hpc]) (by simp [hpc]) rfl (by simp) ?_ rfl rfl rfl rfl rfl rfl rfl (Or.inl rfl) (by simp [hpc, gone])
           intro hw; exact ⟨WInv_mid hw (by rw [hpc]; rfl) rfl rfl rfl rfl rfl, fun hb => hb⟩
-        · refine summary_mk hg (by simp [hpc]) (by simp [hpc]) rfl (by simp) ?_ rfl rfl rfl rfl rfl rfl rfl (Or.inl rfl)
+        · refine summary_mk hg (by simp [hpc]) (by simp [hpc]) rfl (by simp) ?_ rfl rfl rfl rfl rfl rfl rfl (Or.inl rfl) (by simp [hpc, gone])
           intro hw; exact ⟨WInv_mid hw (by rw [hpc]; rfl) rfl rfl rfl rfl rfl, fun hb => hb⟩
     · -- lockRel
       split at h <;> simp only [Option.some.injEq] at h <;> subst h
-      · refine summary_mk hg (by simp [hpc]) (by simp [hpc]) rfl (by simp) ?_ rfl rfl rfl rfl rfl rfl rfl (Or.inl rfl)
+      · refine summary_mk hg (by simp [hpc]) (by simp [hpc]) rfl (by simp) ?_ rfl rfl rfl rfl rfl rfl rfl (Or.inl rfl) (by simp [hpc, gone])
         intro hw; exact ⟨WInv_mid hw (by rw [hpc]; rfl) rfl rfl rfl rfl rfl, fun hb => hb⟩
       · refine summary_mk hg (by simp [hpc]) (by simp [hpc]) (workerLoopTop_facts _ _).1
-            (workerLoopTop_facts _ _).2.2 ?_ rfl rfl rfl rfl rfl rfl rfl (Or.inl rfl)
+            (workerLoopTop_facts _ _).2.2 ?_ rfl rfl rfl rfl rfl rfl rfl (Or.inl rfl) (by simp [hpc, gone])
         intro hw
         refine ⟨?_, fun hb => by rw [(workerLoopTop_facts _ _).2.1]; exact hb⟩
-        obtain ⟨h1, h2, h3, h4, h5, h6⟩ := hw
+        obtain ⟨h1, h2, h3, h4, h5, h6, h7⟩ := hw
         simp only [hpc] at h1 h2 h4
         apply WInv_loopTop
         · exact h1
@@ -337,10 +371,10 @@ theorem stepW_summary {s s' : St} {wid : Nat} (h : stepW s wid = some s') :
         · cases h
         · simp only [Option.some.injEq] at h; subst h
           refine summary_mk hg (by simp [hpc]) (by simp [hpc]) (workerLoopTop_facts _ _).1
-            (workerLoopTop_facts _ _).2.2 ?_ rfl rfl rfl rfl rfl rfl rfl (Or.inl rfl)
+            (workerLoopTop_facts _ _).2.2 ?_ rfl rfl rfl rfl rfl rfl rfl (Or.inl rfl) (by simp [hpc, gone])
           intro hw
           refine ⟨?_, fun hb => by rw [(workerLoopTop_facts _ _).2.1]; exact hb⟩
-          obtain ⟨h1, h2, h3, h4, h5, h6⟩ := hw
+          obtain ⟨h1, h2, h3, h4, h5, h6, h7⟩ := hw
           simp only [hpc] at h1 h2 h4
           apply WInv_loopTop
           · exact h1
@@ -349,10 +383,19 @@ theorem stepW_summary {s s' : St} {wid : Nat} (h : stepW s wid = some s') :
           · exact h2
           · intro q hq; have := h4 q hq; show w.done + 1 ≤ q; omega
     · -- retire
+      split at h <;> simp only [Option.some.injEq] at h <;> subst h
+      · rename_i hjt
+        refine summary_mk hg (by simp [hpc]) (by simp [hpc]) rfl (by simp) ?_ rfl rfl rfl rfl rfl rfl rfl
+          (Or.inr ⟨by rw [hwid], rfl, by simp [hpc, gone]⟩) (by simp [hpc, gone])
+        intro hw; exact ⟨WInv_retire_ending hw hpc hjt, fun hb => hb⟩
+      · refine summary_mk hg (by simp [hpc]) (by simp [hpc]) rfl (by simp [workerExit]) ?_ rfl rfl rfl rfl rfl rfl rfl
+          (Or.inr ⟨by rw [hwid], rfl, by simp [hpc, gone]⟩) (by simp [hpc, gone])
+        intro hw; exact ⟨WInv_get_none hw (Or.inr (Or.inl hpc)), fun hb => hb⟩
+    · -- ending
       simp only [Option.some.injEq] at h; subst h
       refine summary_mk hg (by simp [hpc]) (by simp [hpc]) rfl (by simp [workerExit]) ?_ rfl rfl rfl rfl rfl rfl rfl
-        (Or.inr ⟨by rw [hwid], rfl⟩)
-      intro hw; exact ⟨WInv_get_none hw (Or.inr hpc), fun hb => hb⟩
+        (Or.inl rfl) (fun _ => rfl)
+      intro hw; exact ⟨WInv_get_none hw (Or.inr (Or.inr hpc)), fun hb => hb⟩
     · cases h
 
 end WindVerif.Pool
